@@ -70,16 +70,18 @@ pub fn spec_block_raw(x: [u32; 4], key: &[u32; 8]) -> [u32; 4] { spec::encrypt_w
 pub mod tr {
     use super::*;
     pub const MAXC: usize = 176;
-    pub const RECORD: u8 = 0;
-    pub const FORWARD: u8 = 1;
-    pub const BACKWARD: u8 = 2;
-    pub static mut MODE: u8 = RECORD;
+    // (mode flags are usize on purpose: with a `static mut MODE: u8` Kani 0.68 reported `InOutBuf::new(..).map(..)` as Err as
+    // soon as MODE had been written with 1 -- a spurious aliasing of the u8 static with the 1-byte Result; see report)
+    pub const RECORD: usize = 0;
+    pub const FORWARD: usize = 1;
+    pub const BACKWARD: usize = 2;
+    pub static mut MODE: usize = RECORD;
     pub static mut R: [u32; MAXC] = [0; MAXC];
     pub static mut U: [u32; MAXC] = [0; MAXC];
     pub static mut V: [u32; MAXC] = [0; MAXC];
     pub static mut N: usize = 0; // recorded calls
     pub static mut P: usize = 0; // replayed calls
-    pub fn replay(mode: u8) { unsafe { MODE = mode; P = 0; } }
+    pub fn replay(mode: usize) { unsafe { MODE = mode; P = 0; } }
     /// every recorded call has been replayed exactly once
     pub fn exhausted() -> bool { unsafe { P == N } }
     pub fn recorded() -> usize { unsafe { N } }
@@ -111,12 +113,12 @@ pub mod tr {
 pub mod trb {
     use super::*;
     pub const MAXC: usize = 16;
-    pub static mut MODE: u8 = tr::RECORD;
+    pub static mut MODE: usize = tr::RECORD;
     pub static mut X: [[u32; 4]; MAXC] = [[0; 4]; MAXC];
     pub static mut Y: [[u32; 4]; MAXC] = [[0; 4]; MAXC];
     pub static mut N: usize = 0;
     pub static mut P: usize = 0;
-    pub fn replay(mode: u8) { unsafe { MODE = mode; P = 0; } }
+    pub fn replay(mode: usize) { unsafe { MODE = mode; P = 0; } }
     pub fn exhausted() -> bool { unsafe { P == N } }
     pub fn recorded() -> usize { unsafe { N } }
     #[allow(static_mut_refs)]
